@@ -133,6 +133,9 @@ fn main() {
                 } else if a == "--max-violations" {
                     cfg.max_violations = args[i + 1].parse().unwrap();
                     i += 2;
+                } else if a == "--random-pop" {
+                    cfg.random_pop = Some(args[i + 1].parse().unwrap());
+                    i += 2;
                 } else if a == "--closure" {
                     cfg.closure = true;
                     i += 1;
@@ -195,6 +198,9 @@ fn main() {
                     c.args(["--witnesses", &format!("{}", cfg.n_witnesses / jobs + 1)]);
                     if cfg.closure {
                         c.arg("--closure");
+                    }
+                    if let Some(sd) = cfg.random_pop {
+                        c.args(["--random-pop", &format!("{}", sd + j as u64 + 1)]);
                     }
                     c.arg("--work-in").arg(&wf).arg("--out").arg(&of);
                     kids.push((c.spawn().expect("spawn shard"), wf, of));
